@@ -35,7 +35,7 @@ ASSUMPTIONS = [
     "generated databook bases carry one extra unit-less databook parameter (like 'contacts' in the library SIR framework)",
     "the library tb program book (about a minute per read) is only checked unchanged, not mutated; malaria (framework only, 139 parameters) is only checked unchanged in the enumerated tier",
 ]
-BUDGET = {"quick": 1500, "thorough": 12000}  # thorough = 8x quick: a depth that was run to completion, quiet, at seed 1 (deterministic given the seed)
+BUDGET = {"quick": 1500, "thorough": 6000}  # thorough = 4x quick: a depth that was run to completion, quiet, at seed 1 (deterministic given the seed)
 TIME_CAP = {"quick": 60, "thorough": 1500}
 
 LIB_DIR = None  # resolved lazily from the atomica package under test
